@@ -156,12 +156,12 @@ func genMutants(c *vf.Ctx, t *target) {
 		flipPos = samplePositions(r, H, L, 64)
 		editPos = flipPos
 	} else {
-		if L <= 32768 {
+		if L <= 8192 {
 			flipPos = samplePositions(r, H, L, L)
 		} else {
-			flipPos = samplePositions(r, H, L, 3000)
+			flipPos = samplePositions(r, H, L, 2000)
 		}
-		editPos = samplePositions(r, H, L, 600)
+		editPos = samplePositions(r, H, L, 400)
 	}
 	for _, p := range append(bounds, flipPos...) {
 		add(mutant{K: "flip", P: p, B: r.IntN(8)})
@@ -187,12 +187,12 @@ func genMutants(c *vf.Ctx, t *target) {
 		zflip = append(samplePositions(r, 0, min(16, Z), 16), samplePositions(r, 16, Z, 48)...)
 		zedit = samplePositions(r, 0, Z, 24)
 	} else {
-		if Z <= 16384 {
+		if Z <= 4096 {
 			zflip = samplePositions(r, 0, Z, Z)
 		} else {
-			zflip = samplePositions(r, 0, Z, 2000)
+			zflip = samplePositions(r, 0, Z, 1200)
 		}
-		zedit = samplePositions(r, 0, Z, 300)
+		zedit = samplePositions(r, 0, Z, 200)
 	}
 	for _, p := range zflip {
 		zst = append(zst, mutant{K: "flip", P: p, B: r.IntN(8)})
@@ -233,7 +233,7 @@ func posClass(t *target, domain string, m mutant) string {
 func run(c *vf.Ctx) {
 	c.Rule("a case = one (possibly altered) snapshot byte stream, taken from Store.Open(id) of a generated source store, handed to a destination Store sink (raft's Create/Write…/Cancel-or-Close sequence, seeded write split) and to snapshot.Restore; " +
 		"unaltered streams: every split pattern (1 byte, primes, length-prefix/header/file boundaries ±1, whole) and the transport zstd pair with 3 buffer sizes × 3 read sizes + 1-byte trickle; " +
-		"altered streams: bit flip / drop / insert / duplicate / truncate at every header byte, at all boundaries and at sampled (thorough: all for ≤32 KiB, 3000 sampled otherwise) body bytes, appended bytes, header-field edits (sizes ±1, CRC ±1, swapped/dropped/added WAL headers, version, payload kind), the same on the compressed bytes; plus the real NodeTransport pair over TCP with one flipped bit on the wire. " +
+		"altered streams: bit flip / drop / insert / duplicate / truncate at every header byte, at all boundaries and at sampled (thorough: all for ≤8 KiB, 2000 sampled otherwise) body bytes, appended bytes, header-field edits (sizes ±1, CRC ±1, swapped/dropped/added WAL headers, version, payload kind), the same on the compressed bytes; plus the real NodeTransport pair over TCP with one flipped bit on the wire. " +
 		"distinct = (stream, domain, mutation); non-trivial when the altered bytes differ from the original")
 	c.Assume("\"identical\" is byte equality (sha256) of the database produced by Store.Open→snapshot.Restore on the destination (or by Restore on the stream) with the one produced from the unmodified source store, whose logical dump was checked against the stock-driver SQLite twin when the store was generated")
 	c.Assume("an install counts as failed when no new snapshot is listed in the destination (Write or Close returned an error, Close returned nil without installing because the header never completed, or rqlite exited the process); raft's own byte-count check is not relied upon")
@@ -590,5 +590,5 @@ func run(c *vf.Ctx) {
 		}
 	}
 	w0.p.Kill()
-	c.Require(int64(c.N(1500, 50000)), c.N(1200, 40000))
+	c.Require(int64(c.N(1500, 25000)), c.N(1200, 20000))
 }
